@@ -1,6 +1,7 @@
 package p_codec
 
 import (
+	"strings"
 	"bytes"
 	"encoding/json"
 	"fmt"
@@ -22,6 +23,11 @@ type Mod struct {
 type ModCase struct {
 	P    *codec.Packet `json:"packet"`
 	Mods []Mod         `json:"mods"`
+	// Origin of the message the setters are applied to: "" = decoded from its
+	// encoding; "built" = built through the setters; "+encoded" appended = Encode was
+	// called once before the modification (an encoded message may be changed and
+	// encoded again, e.g. re-sent with DUP or another identifier)
+	Origin string `json:"origin,omitempty"`
 }
 
 func flag(f *byte, bit byte, v bool) {
@@ -243,11 +249,28 @@ func checkModify(c ModCase) (fail string, applied int) {
 	if _, why, _ := build(p); why != "" {
 		return "", 0 // the setter API cannot express this packet, so it cannot re-serialise it either
 	}
-	lm, _ := message.Type(p.Type).New()
-	in := exactCap(ref)
-	if _, err := lm.Decode(in); err != nil {
-		return "", 0 // acceptance is judged by the other units
+	var lm message.Message
+	if strings.HasPrefix(c.Origin, "built") {
+		lm, _, _ = build(p)
+	} else {
+		lm, _ = message.Type(p.Type).New()
+		in := exactCap(ref)
+		if _, err := lm.Decode(in); err != nil {
+			return "", 0 // acceptance is judged by the other units
+		}
 	}
+	how := "decoded"
+	if strings.HasPrefix(c.Origin, "built") {
+		how = "built through the setters"
+	}
+	if strings.HasSuffix(c.Origin, "+encoded") {
+		how += ", encoded once,"
+		first := make([]byte, len(ref)+4)
+		if n, err := lm.Encode(first); err != nil || !bytes.Equal(first[:n], ref) {
+			return "", 0 // judged by the fields unit
+		}
+	}
+	name += " " + how
 	var hist []string
 	for _, m := range c.Mods {
 		ok, err := applyMod(lm, p, m)
@@ -269,29 +292,29 @@ func checkModify(c ModCase) (fail string, applied int) {
 	}
 	L := lm.Len()
 	if L != len(want) {
-		return fmt.Sprintf("%s decoded and then changed through %v: Len() = %d, the MQTT encoding of its fields has %d bytes", name, hist, L, len(want)), applied
+		return fmt.Sprintf("%s and then changed through %v: Len() = %d, the MQTT encoding of its fields has %d bytes", name, hist, L, len(want)), applied
 	}
 	out := sentinel(len(want) + 8)
 	n, err := lm.Encode(out)
 	if err != nil {
-		return fmt.Sprintf("%s decoded and then changed through %v: Encode failed: %v", name, hist, err), applied
+		return fmt.Sprintf("%s and then changed through %v: Encode failed: %v", name, hist, err), applied
 	}
 	if autoID {
 		id := lm.PacketID()
 		if id == 0 {
-			return fmt.Sprintf("%s decoded at QoS 0 and raised to QoS %d through %v without an explicit identifier: Encode assigned no packet identifier", name, p.QoS, hist), applied
+			return fmt.Sprintf("%s at QoS 0 and raised to QoS %d through %v without an explicit identifier: Encode assigned no packet identifier", name, p.QoS, hist), applied
 		}
 		p.PacketID = id
 		want = codec.Encode(p)
 	}
 	if n != len(want) || !bytes.Equal(out[:n], want) {
-		return fmt.Sprintf("%s decoded and then changed through %v: Encode wrote %d bytes differing at byte %d from the MQTT encoding of its fields (%d bytes)", name, hist, n, firstDiff(out[:min(n, len(want))], want), len(want)), applied
+		return fmt.Sprintf("%s and then changed through %v: Encode wrote %d bytes differing at byte %d from the MQTT encoding of its fields (%d bytes)", name, hist, n, firstDiff(out[:min(n, len(want))], want), len(want)), applied
 	}
 	if !bytes.Equal(out[n:], sentinel(8)) {
 		return fmt.Sprintf("%s: Encode wrote beyond the bytes it reported", name), applied
 	}
 	if df := diff(fieldsOf(lm), p); df != "" {
-		return fmt.Sprintf("%s decoded and then changed through %v: getters disagree with what was set: %s", name, hist, df), applied
+		return fmt.Sprintf("%s and then changed through %v: getters disagree with what was set: %s", name, hist, df), applied
 	}
 	return "", applied
 }
@@ -340,13 +363,14 @@ func TestC03Modify(t *testing.T) {
 			}
 			mods = append(mods, m)
 		}
-		c := ModCase{P: p, Mods: mods}
+		c := ModCase{P: p, Mods: mods, Origin: rapid.SampledFrom([]string{"", "", "built", "built+encoded", "+encoded"}).Draw(t, "origin")}
 		f, applied := checkModify(c)
 		d, _ := describe(p)
 		cls := []string{"type:" + d.Type}
 		for _, m := range mods {
 			cls = append(cls, "mod:"+m.K)
 		}
+		cls = append(cls, "origin:"+c.Origin)
 		rec.Case(struct {
 			D desc  `json:"packet"`
 			M []Mod `json:"mods"`
